@@ -226,3 +226,55 @@ Definition c12_guardn_case (cats : list gcat) (dt : list (list (list Q))) (accep
          (* the property, whichever of the catalogs with most entries is taken as the reference *)
          negb accepted || guard_some_ref cats dt 1;
          shape_ok cats dt ].
+
+(* ================= creation routes: the centres that split the records and the centres that are reported =========
+   Catalog.from_dataframe / from_file / from_random (from_random has no patch_name):
+     1. mode = determine(patch_centers, patch_name, patch_num);
+     2. Create: the centres are made by k-means (treecorr) on a probe of the input - an oracle, any list `made`;
+     3. write_patches splits the records by the nearest of the centres in use (Apply: the given ones, a reference
+        catalog standing for its reported centres; Create: the made ones; Divide: no centres, the index column);
+     4. load_patches is handed centres too: every patch stores and reports the centre it is handed, a patch that is
+        handed none reports the mean of its records.
+   The statement "the reported centres reproduce the partition" needs 3 and 4 to be about the same centres. *)
+Definition is_given {A : Type} (o : option A) : bool := match o with Some _ => true | None => false end.
+
+Section Routes.
+  Context {C R : Type} (dist : R -> C -> Q).
+  (* the centres the records are split by *)
+  Definition centres_in_use (given : option (list C)) (name num : bool) (made : list C) : option (list C) :=
+    match determine (is_given given) name num with
+    | Some Apply => given
+    | Some Create => Some made
+    | _ => None
+    end.
+  (* load_patches(patch_centers=handed): the centres of the new catalog; means = per patch the mean of its records *)
+  Definition centres_reported (handed : option (list C)) (means : list C) : list C :=
+    match handed with Some cs => cs | None => means end.
+  (* distances of a record to centre 0, 1, ... and the index of the nearest one *)
+  Definition row_to (cs : list C) (r : R) : list Q := map (dist r) cs.
+  Definition nearest (cs : list C) (r : R) : nat := argmin (row_to cs r).
+  (* the records of patch p *)
+  Definition route_data (given : option (list C)) (name num : bool) (made : list C) (chunks : list (chunk R)) (p : nat)
+    : option (list R) :=
+    patch_data (option_map nearest (centres_in_use given name num made)) chunks p.
+  (* the pinned code, all three entry points: the loader is handed the centres in use *)
+  Definition route_centres (given : option (list C)) (name num : bool) (made means : list C) : list C :=
+    centres_reported (centres_in_use given name num made) means.
+  (* the other way to write an entry point: the loader is handed the caller's patch_centers argument *)
+  Definition route_centres_arg (given : option (list C)) (means : list C) : list C :=
+    centres_reported given means.
+End Routes.
+
+(* one catalog (any creation route, centres given or made) and the catalog built from its stored records with
+   patch_centers = the first catalog.  rows: per stored record of the first catalog the distances to its REPORTED
+   centres; stored: index of the patch that stores it; stored2: index of the patch of the second catalog that stores it *)
+Definition nearest_rows (rows : list (list Q)) : list nat :=
+  match chunk_ids (Some argmin) {| recs := rows; col := None |} with Some ids => ids | None => [] end.
+Definition c12_route_case (rows : list (list Q)) (stored stored2 : list nat) : nat :=
+  code [ nlist_eqb (nearest_rows rows) stored;                                         (* model = impl: split by the reported centres *)
+         forallb (fun rp => own_centre_nearest (fst rp) (snd rp)) (combine rows stored);    (* the statement, first catalog *)
+         forallb (fun rp => own_centre_nearest (fst rp) (snd rp)) (combine rows stored2);   (* the statement, second catalog (same centres) *)
+         nlist_eqb stored2 stored;                                                     (* the centres reproduce the partition *)
+         (length stored =? length rows)%nat && (length stored2 =? length rows)%nat ].
+Definition c12_route_case_z (rows : list (list Z)) (stored stored2 : list nat) : nat :=
+  c12_route_case (map (map inject_Z) rows) stored stored2.
